@@ -28,6 +28,10 @@ struct Params {
     strays: usize,
     /// offer "reply to call i followed by 9 stray replies, all in one read" as an event
     burst: bool,
+    /// false: every caller uses `Connection::call_method`; true: even callers use
+    /// `Proxy::call_method`, odd callers `Proxy::call_with_flags(NoAutoStart | AllowInteractiveAuth)`
+    /// and the no-reply call is `call_with_flags(NoReplyExpected | NoAutoStart)`
+    via_proxy: bool,
 }
 
 #[derive(Clone, Debug, PartialEq)]
@@ -46,8 +50,21 @@ enum Env {
 #[derive(Debug)]
 enum CallResult {
     Ok { reply_serial: Option<u32>, mtype: Type },
+    /// completed through an API that only hands out the decoded body (the peer puts the caller's
+    /// index into the body of its return)
+    OkBody(Option<u32>),
     MethodError { reply_serial: Option<u32>, name: String },
     OtherErr(String),
+}
+
+async fn mk_proxy(c: &zbus::Connection) -> zbus::Result<zbus::Proxy<'static>> {
+    zbus::proxy::Builder::<zbus::Proxy<'_>>::new(c)
+        .destination("a.b")?
+        .path("/p")?
+        .interface("a.b")?
+        .cache_properties(zbus::proxy::CacheProperties::No)
+        .build()
+        .await
 }
 
 fn scenario(p: Params) -> ExecResult {
@@ -72,11 +89,34 @@ fn scenario(p: Params) -> ExecResult {
     let mut callers: Vec<Handle<CallResult>> = vec![];
     for i in 0..p.callers {
         let c = conn.clone();
+        let via_proxy = p.via_proxy;
         callers.push(w.spawn(&format!("caller{i}"), async move {
-            match c
-                .call_method(None::<&str>, "/p", Some("a.b"), format!("M{i}").as_str(), &())
-                .await
-            {
+            let r = if via_proxy {
+                let proxy = match mk_proxy(&c).await {
+                    Ok(p) => p,
+                    Err(e) => return CallResult::OtherErr(e.to_string()),
+                };
+                if i % 2 == 0 {
+                    proxy.call_method(format!("M{i}").as_str(), &()).await
+                } else {
+                    use zbus::proxy::MethodFlags;
+                    match proxy
+                        .call_with_flags::<_, _, u32>(
+                            format!("M{i}").as_str(),
+                            MethodFlags::NoAutoStart | MethodFlags::AllowInteractiveAuth,
+                            &(),
+                        )
+                        .await
+                    {
+                        Ok(v) => return CallResult::OkBody(v),
+                        Err(e) => Err(e),
+                    }
+                }
+            } else {
+                c.call_method(None::<&str>, "/p", Some("a.b"), format!("M{i}").as_str(), &())
+                    .await
+            };
+            match r {
                 Ok(m) => CallResult::Ok {
                     reply_serial: m.header().reply_serial().map(|s| s.get()),
                     mtype: m.message_type(),
@@ -91,19 +131,22 @@ fn scenario(p: Params) -> ExecResult {
     }
     let noreply: Option<Handle<Result<(), String>>> = if p.noreply {
         let c = conn.clone();
+        let via_proxy = p.via_proxy;
         Some(w.spawn("noreply", async move {
-            let proxy = zbus::proxy::Builder::<zbus::Proxy<'_>>::new(&c)
-                .destination("a.b")
-                .unwrap()
-                .path("/p")
-                .unwrap()
-                .interface("a.b")
-                .unwrap()
-                .cache_properties(zbus::proxy::CacheProperties::No)
-                .build()
-                .await
-                .map_err(|e| e.to_string())?;
-            proxy.call_noreply("N", &()).await.map_err(|e| e.to_string())
+            let proxy = mk_proxy(&c).await.map_err(|e| e.to_string())?;
+            if via_proxy {
+                use zbus::proxy::MethodFlags;
+                match proxy
+                    .call_with_flags::<_, _, u32>("N", MethodFlags::NoReplyExpected | MethodFlags::NoAutoStart, &())
+                    .await
+                {
+                    Ok(None) => Ok(()),
+                    Ok(Some(v)) => Err(format!("a no-reply call returned a value: {v}")),
+                    Err(e) => Err(e.to_string()),
+                }
+            } else {
+                proxy.call_noreply("N", &()).await.map_err(|e| e.to_string())
+            }
         }))
     } else {
         None
@@ -313,7 +356,7 @@ fn scenario(p: Params) -> ExecResult {
             answered.get(&i),
             match &out {
                 None => "pending".to_string(),
-                Some(CallResult::Ok { .. }) => "return".into(),
+                Some(CallResult::Ok { .. }) | Some(CallResult::OkBody(_)) => "return".into(),
                 Some(CallResult::MethodError { .. }) => "method-error".into(),
                 Some(CallResult::OtherErr(e)) =>
                     if e.contains("timed out") { "timeout".into() } else { "io-error".into() },
@@ -324,6 +367,14 @@ fn scenario(p: Params) -> ExecResult {
                 if *reply_serial != serial || *mtype != Type::MethodReturn || a != Some(&"return") {
                     res.violations.push(
                         v("own-reply-only", format!("caller{i} (serial {serial:?}) completed with a return carrying reply_serial {reply_serial:?}; the peer had answered it with {a:?}"))
+                            .feat("kind", "wrong-return"),
+                    );
+                }
+            }
+            (Some(CallResult::OkBody(body)), a) => {
+                if *body != Some(i as u32) || a != Some(&"return") {
+                    res.violations.push(
+                        v("own-reply-only", format!("caller{i} (serial {serial:?}) completed with a return whose body is {body:?} (the reply to call k carries k); the peer had answered it with {a:?}"))
                             .feat("kind", "wrong-return"),
                     );
                 }
@@ -406,6 +457,7 @@ pub fn main(args: &Args) -> i32 {
                 eof: j["eof"].as_bool().unwrap_or(false),
                 strays: j["strays"].as_u64().unwrap_or(0) as usize,
                 burst: j["burst"].as_bool().unwrap_or(false),
+                via_proxy: j["via_proxy"].as_bool().unwrap_or(false),
             };
             Some(Box::new(move || scenario(p)))
         });
@@ -416,33 +468,48 @@ pub fn main(args: &Args) -> i32 {
     let scenarios: Vec<(&str, Params, Vec<Option<usize>>)> = vec![
         (
             "two-callers",
-            Params { callers: 2, noreply: false, timeout: false, eof: true, strays: 1, burst: false },
+            Params { callers: 2, noreply: false, timeout: false, eof: true, strays: 1, burst: false, via_proxy: false },
             if quick { vec![Some(5)] } else { vec![Some(7), None] },
         ),
         (
             "two-callers-noreply",
-            Params { callers: 2, noreply: true, timeout: false, eof: false, strays: 0, burst: false },
+            Params { callers: 2, noreply: true, timeout: false, eof: false, strays: 0, burst: false, via_proxy: false },
             if quick { vec![Some(4)] } else { vec![Some(6), Some(7)] },
         ),
         (
             "three-callers",
-            Params { callers: 3, noreply: false, timeout: false, eof: true, strays: 1, burst: false },
+            Params { callers: 3, noreply: false, timeout: false, eof: true, strays: 1, burst: false, via_proxy: false },
             if quick { vec![Some(4)] } else { vec![Some(6), Some(7)] },
         ),
         (
             "timeout-one-caller",
-            Params { callers: 1, noreply: false, timeout: true, eof: true, strays: 1, burst: false },
+            Params { callers: 1, noreply: false, timeout: true, eof: true, strays: 1, burst: false, via_proxy: false },
             vec![None],
         ),
         (
             "timeout-two-callers",
-            Params { callers: 2, noreply: false, timeout: true, eof: false, strays: 0, burst: false },
+            Params { callers: 2, noreply: false, timeout: true, eof: false, strays: 0, burst: false, via_proxy: false },
             if quick { vec![Some(4)] } else { vec![Some(6), Some(7)] },
+        ),
+        (
+            "proxy-callers",
+            Params { callers: 2, noreply: false, timeout: false, eof: true, strays: 1, burst: false, via_proxy: true },
+            if quick { vec![Some(4)] } else { vec![Some(6), Some(7)] },
+        ),
+        (
+            "proxy-callers-noreply-with-flags",
+            Params { callers: 2, noreply: true, timeout: false, eof: false, strays: 0, burst: false, via_proxy: true },
+            if quick { vec![Some(3)] } else { vec![Some(5), Some(6)] },
+        ),
+        (
+            "proxy-timeout-two-callers",
+            Params { callers: 2, noreply: false, timeout: true, eof: false, strays: 0, burst: false, via_proxy: true },
+            if quick { vec![Some(3)] } else { vec![Some(5), Some(6)] },
         ),
         (
             "queue-pressure",
             // more stray replies than the method-return queue holds (8)
-            Params { callers: 2, noreply: false, timeout: false, eof: false, strays: 10, burst: true },
+            Params { callers: 2, noreply: false, timeout: false, eof: false, strays: 10, burst: true, via_proxy: false },
             if quick { vec![Some(4)] } else { vec![Some(6)] },
         ),
     ];
@@ -456,7 +523,7 @@ pub fn main(args: &Args) -> i32 {
             &report,
             &totals,
             name,
-            json!({"callers": p.callers, "noreply": p.noreply, "timeout": p.timeout, "eof": p.eof, "strays": p.strays, "burst": p.burst}),
+            json!({"callers": p.callers, "noreply": p.noreply, "timeout": p.timeout, "eof": p.eof, "strays": p.strays, "burst": p.burst, "via_proxy": p.via_proxy}),
             &plan,
             move || scenario(p),
         );
